@@ -215,6 +215,8 @@ pub enum Note {
     Published { inst: Inst },
     /// Accessor called from a command closure (app mode / direct world access).
     Direct(String),
+    /// Table sizes sampled right before (phase 0) / after (phase 1) a revocation command.
+    Tables { phase: u8, tables: [usize; 7], entity_entries: usize },
 }
 
 /// Shared between all harness closures of one world.
